@@ -726,6 +726,52 @@ example :
     (step up s (.createIndex "idx_a" "T" ["B"])).2 = none := by
   decide
 
+/-! ### an index is (re)built from the rows of ITS OWN table
+
+Tables are addressed by the name as stored; `"t"` and `T` are different entries.  The contents a
+rebuild gives an index are a function of `stTable s ix.table` only. -/
+
+/-- the keys a rebuild of `ix` produces: the index columns of every row of the table `ix` names -/
+def indexContents (s : DState) (ix : DIndex) : Option (List (List (Option Value))) :=
+  (stTable s ix.table).map (fun t =>
+    t.rows.map (fun r => ix.cols.map (fun c => (t.cols.idxOf? c).bind (fun k => r[k]?))))
+
+/-- whatever happens to the stored table `n'` (DML, ALTER, a rebuild after it), the stored table
+of a different name `n` is untouched — in particular when the two names differ only by case -/
+theorem stTable_other (s : DState) (n n' : String) (f : STable → STable) (h : n ≠ n') :
+    stTable (updStored s n' f) n = stTable s n := by
+  unfold stTable updStored
+  simp only
+  induction s.stored with
+  | nil => rfl
+  | cons e l ih =>
+    simp only [List.map_cons, List.find?_cons]
+    by_cases he : e.1 = n'
+    · have hne : ¬ e.1 = n := fun h2 => h (h2.symm.trans he)
+      simp only [he, ↓reduceIte]
+      have h1 : (n' == n) = false := by simpa using (fun h3 : n' = n => h h3.symm)
+      have h2 : (e.1 == n) = false := by simpa using hne
+      simp only [h1, h2]
+      exact ih
+    · simp only [he, ↓reduceIte]
+      cases hb : (e.1 == n) with
+      | true => rfl
+      | false => exact ih
+
+/-- hence a rebuild of an index of `n` after any change to a namesake `n'` (for every pair of
+different names, e.g. `"t"` and `T`) yields exactly the keys of `n`'s own rows -/
+theorem C33_rebuild_reads_own_table (s : DState) (ix : DIndex) (n' : String) (f : STable → STable)
+    (h : ix.table ≠ n') : indexContents (updStored s n' f) ix = indexContents s ix := by
+  unfold indexContents
+  rw [stTable_other s ix.table n' f h]
+
+example :
+    let s := run (fun x => x) init [.createTable "t" ["A"], .createTable "T" ["A"], .insert "T" [.int 8],
+      .createIndex "I" "t" ["A"], .addColumn "t" "B"]
+    indexContents s { name := "I", table := "t", cols := ["A"] } = some [] ∧
+    indexContents s { name := "J", table := "T", cols := ["A"] } = some [[some (.int 8)]] := by
+  decide
+
 /-- non-vacuity: a history with name reuse, an index, rows, and ALTER; the invariant holds and
 the tables are not empty -/
 example :
